@@ -6,6 +6,9 @@ REPO="${VERIF_REPO:-/repo}"
 H="$(cd "$(dirname "$0")" && pwd)/harness/src"
 SRC="$REPO/lsp4spl/src"
 [ -d "$SRC" ] || { echo "HARNESS-ERROR: $SRC not found"; exit 2; }
+# the path dependency on spl_frontend goes through this link (default /repo; VERIF_REPO lets a
+# scratch worktree be checked without touching /repo)
+ln -sfn "$REPO" "$(cd "$(dirname "$0")" && pwd)/repo_link"
 # remove stale links
 find "$H" -maxdepth 1 -type l -delete
 for f in "$SRC"/*; do
